@@ -45,7 +45,7 @@ LEVEL_TEXT = ("Generated splits between fallback and stacked repository and "
               "the fallback and compared with the model. A sample, not a proof.")
 LEVEL_NOTE = ("Trusted: bzrformats storage and chk_map; tree models and ancestry "
               "are the harness' own.")
-REGISTERED = False
+REGISTERED = True
 NONTRIVIAL_FLOOR = {"quick": 80, "thorough": 3000}
 
 PRE2A = ["1.9", "1.9-rich-root", "1.14", "1.14-rich-root"]
